@@ -171,9 +171,9 @@ func openIndex(eng string, g grid, ds *docSet) (bleve.Index, error) {
 		}
 		var doc map[string]interface{}
 		if len(vs) == 1 {
-			doc = map[string]interface{}{"loc": vs[0]}
+			doc = map[string]interface{}{"loc": vs[0], "r": 1.0}
 		} else {
-			doc = map[string]interface{}{"loc": vs}
+			doc = map[string]interface{}{"loc": vs, "r": 1.0}
 		}
 		if err := b.Index(id, doc); err != nil {
 			return nil, err
@@ -296,8 +296,18 @@ func buildQuery(g grid, q qcase) (query.Query, search.SortOrder) {
 // execute runs q on idx and returns the hit ids in the order returned.
 func execute(idx bleve.Index, g grid, q qcase, ndocs int) ([]string, error) {
 	bq, so := buildQuery(g, q)
+	if q.Variant%2 == 1 && q.Kind != "sort" {
+		// the same query as one clause of a conjunction whose other clause matches everything:
+		// the answer is the same, but the geo searcher is now driven with Advance
+		bq = bleve.NewConjunctionQuery(bleve.NewMatchAllQuery(), bq)
+	}
 	req := bleve.NewSearchRequestOptions(bq, ndocs+10, 0, false)
 	if so != nil {
+		if q.Variant%2 == 1 {
+			// a leading sort key that is the same for every document (a numeric field): the
+			// order is still the order by distance, but the distance key is no longer the first
+			so = append(search.SortOrder{&search.SortField{Field: "r", Type: search.SortFieldAsNumber, Missing: search.SortFieldMissingLast}}, so...)
+		}
 		req.SortByCustom(so)
 	}
 	res, err := idx.Search(req)
